@@ -193,6 +193,11 @@ def profile_consume(rnd, tier):
     steps = []
     tags = {c: [] for c in range(1, nchan + 1)}
     ntag = 0
+    if rnd.random() < 0.15:
+        # a returned mandatory publish, noticed by a basic.get, before any consumer exists
+        steps.append((1, ('publish', True), []))
+        steps.append((1, ('idle',), [g.returned(1)]))
+        steps.append((1, ('get',), [[(1, F('NGetEmpty'))]]))
     for _ in range(rnd.randrange(3, 10)):
         c = rnd.randrange(1, nchan + 1)
         r = rnd.random()
@@ -233,6 +238,30 @@ def profile_consume(rnd, tier):
             tags[c].remove(t)
         elif r < 0.9:
             steps.append((c, ('stop',), [[(c, F('NCancelOk', 0, t))] for t in tags[c]]))
+            tags[c] = []
+        elif r < 0.93 and tags[c]:
+            # start_consuming: runs until the broker has cancelled every consumer of the
+            # channel; deliveries arrive before it is called and while it runs
+            pre = []
+            for _ in range(rnd.randrange(0, 3)):
+                pre += g.delivery(c, rnd.choice(tags[c]))
+            order = list(tags[c])
+            rnd.shuffle(order)
+            ticks = []
+            for t in order:
+                tick = []
+                for _ in range(rnd.randrange(0, 3)):
+                    tick += g.delivery(c, rnd.choice(tags[c]))
+                tick.append((c, F('NCancel', 0, t)))
+                ticks.append(tick)
+            if rnd.random() < 0.5:
+                # everything (deliveries and cancels) is already there when it is called
+                steps.append((c, ('idle',), [pre + [f for t in ticks for f in t]]))
+                steps.append((c, ('start',), []))
+            else:
+                if pre:
+                    steps.append((c, ('idle',), [pre]))
+                steps.append((c, ('start',), ticks))
             tags[c] = []
         elif r < 0.95:
             # the reader is ahead of the consumer: several deliveries and a
